@@ -564,3 +564,9 @@ func (w *world) proofTx(node, app int, chain string, S int64, e evSpec, po proof
 	}
 	return w.sig(a, w.name(signer))
 }
+
+// requiredFee reads the fee the chain currently requires for this message (an input choice)
+func (w *world) requiredFee(a absTx) int64 {
+	defer func() { _ = recover() }()
+	return w.s.App.VerifAccountKeeper().GetParams(w.s.Ctx()).FeeMultiplier.GetFee(w.buildMsg(a)).Int64()
+}
